@@ -5,12 +5,12 @@ TECH = "contract-based deductive verification: Verus (Z3) on functions sliced me
 
 PROPERTIES = {
     'C01': dict(
-        units=['u_map', 'u_cascade', 'u_dataset', 'u_sub', 'u_posidx'],
-        level_text="Deductive proof (Verus/Z3), for all inputs and without bound, that every reverse-index primitive the store is built from (RelationMap, RelationBTreeMap, TripleRelationMap, ExclusiveRelationMap: insert/remove/remove_all/remove_second/get) changes exactly the addressed row and nothing else. The store-level callbacks that call these primitives are not under contract; the claim is partial and says so.",
-        level_note="Trusted: Vec::resize_with / Option::copied std specs, vx_position (Iterator::position semantics, structural == on handles), lawful Ord on handle types (obeys_cmp precondition), 64-bit usize. Not decided: StoreCallbacks<Annotation>::{inserted,preremove}, protect_text.",
+        units=['u_map', 'u_index', 'u_cascade', 'u_dataset', 'u_sub', 'u_posidx'],
+        level_text="Deductive proof (Verus/Z3), for all inputs and without bound, that (1) every reverse-index primitive (RelationMap, RelationBTreeMap, TripleRelationMap, ExclusiveRelationMap: insert/extend/remove/remove_all/remove_second/get) changes exactly the addressed row and nothing else; (2) StoreCallbacks<Annotation>::inserted, verified whole, enters a new annotation into each of the seven indices exactly once per matching leaf of its target, in order, under the right keys, for every target selector and every index configuration, and changes nothing else; (3) the un-indexing part of StoreCallbacks<Annotation>::preremove removes exactly the pairs (target, annotation) from exactly the right index; (4) the dataset callbacks keep key_data_map equal to the keys of the live data; (5) the range compression of subselectors loses no target; (6) position-index insertion enters a text selection under its begin and its end. The claim is partial and says so.",
+        level_note="Trusted: Vec::resize_with / Option::copied std specs, vx_position (Iterator::position semantics, structural == on handles), lawful Ord on handle types (obeys_cmp precondition), 64-bit usize, BTreeMap entry API model, SelectorIter (the sequence of leafs of a complex target is the uninterpreted walk(target); a non-complex selector yields itself). Not decided: the target collection at the head of preremove (high-level API iterators), protect_text, map reindex, totalcount.",
         design_ref='DESIGN.md §7.1',
-        explanation="index primitives under full-view contracts (touched row + frame); store-level bijection depends on callbacks outside reach",
-        assumptions=["the StoreCallbacks<Annotation> implementations call the index primitives with the right arguments (not verified)"],
+        explanation="index primitives under full-view contracts (touched row + frame); insertion and removal callbacks of annotations proved to append / remove exactly the entries the target denotes",
+        assumptions=["SelectorIter yields the leafs of a complex target (assumed, uninterpreted)", "the lists of targets computed at the head of preremove are the annotation's targets (not verified)"],
     ),
     'C13': dict(
         units=['u_rel'],
